@@ -1757,26 +1757,29 @@ func CharAccessRule(w *World, r *Result, rule string) {
 // the empty string: a scanning loop that continues while the test succeeds would never
 // leave at the end of the input.
 func ClassTestRule(w *World, r *Result, rule string) {
-	lf, err := BuildLexFacts(w)
-	if err != nil {
-		r.Bad(rule, "lexclass:facts", "-", err.Error())
-		return
-	}
+	tests := LexCharTests(w)
+	sort.SliceStable(tests, func(i, j int) bool { return tests[i].At < tests[j].At })
 	n := 0
-	for _, re := range lf.Regexes {
-		if re.Method != "MatchString" {
+	for _, t := range tests {
+		// class tests: a set of characters decided by a regular expression, a predicate or a
+		// character list (plain comparisons with one character are the arms' own business)
+		if t.How == "comparison" || t.IsByte {
 			continue
 		}
 		n++
 		key := fmt.Sprintf("lexclass:#%d", n)
-		if re.Tree == nil {
-			r.Bad(rule, key, w.Pos(re.Pos), "regular expression cannot be parsed or is not constant")
-			continue
-		}
-		if regexNullable(re.Tree) {
-			r.Bad(rule, key, w.Pos(re.Pos), fmt.Sprintf("the character test %q also succeeds on the empty string, which is what the scanner sees at the end of the input: the loop it controls never ends when a file ends inside such a lexeme", re.Pattern))
+		if t.Set.EOF {
+			r.Bad(rule, key, w.Pos(t.At), fmt.Sprintf("the character test (%s, class %s) also succeeds on the empty string, which is what the scanner sees at the end of the input: the loop it controls never ends when a file ends inside such a lexeme", t.How, t.Set.ClassString()))
 		} else {
-			r.Ok(rule, key, w.Pos(re.Pos), fmt.Sprintf("character test %q fails on the empty string (end of input leaves the loop)", re.Pattern))
+			r.Ok(rule, key, w.Pos(t.At), fmt.Sprintf("character test (%s, class %s) fails on the empty string (end of input leaves the loop)", t.How, t.Set.ClassString()))
+		}
+	}
+	// a byte test s[i] cannot see the end of the input at all: the access must be in range,
+	// which is the business of the index rule
+	for _, t := range tests {
+		if t.IsByte && t.How != "comparison" {
+			n++
+			r.Ok(rule, fmt.Sprintf("lexclass:#%d", n), w.Pos(t.At), fmt.Sprintf("character test on a byte of the source (%s, class %s); its index is judged by the index rule", t.How, t.Set.ClassString()))
 		}
 	}
 	if n == 0 {
